@@ -226,6 +226,7 @@ def conclude(mod, tier, seed, results, by_id, inconclusive, t_start, out):
     known_hits = {}
     harness_errors = []
     samples = []
+    n_evals = 0
     for r in results:
         classes[r['cls']] = classes.get(r['cls'], 0) + 1
         for k, v in r.get('obs', {}).items():
@@ -235,7 +236,10 @@ def conclude(mod, tier, seed, results, by_id, inconclusive, t_start, out):
                 else:
                     obs[k] = obs.get(k, 0) + v
         if r.get('nontrivial'):
-            nontrivial.add(r['hash'])
+            # a batch case reports how many distinct non-trivial points it held
+            for j in range(int(r.get('nontrivial_count', 1))):
+                nontrivial.add((r['hash'], j))
+        n_evals += int(r.get('evals', 1))
         if r.get('harness_error'):
             harness_errors.append((r['id'], r['harness_error']))
         if r.get('inconclusive'):
@@ -282,7 +286,8 @@ def conclude(mod, tier, seed, results, by_id, inconclusive, t_start, out):
     evidence = dict(
         property_id=pid, tier=tier, seed=int(seed), level='exploration',
         coverage=dict(
-            evaluations=len(results),
+            evaluations=n_evals,
+            cases=len(results),
             distinct_nontrivial=len(nontrivial),
             rule=mod.RULE,
             samples=jsonable(samples),
@@ -303,7 +308,7 @@ def conclude(mod, tier, seed, results, by_id, inconclusive, t_start, out):
     with open(os.path.join(edir, f'{pid}.json'), 'w') as f:
         json.dump(evidence, f, indent=1)
 
-    print(f'{pid} tier={tier} seed={seed}: {len(results)} monitored executions, '
+    print(f'{pid} tier={tier} seed={seed}: {len(results)} cases / {n_evals} monitored evaluations, '
           f'{len(nontrivial)} distinct non-trivial, classes={classes}', file=out)
     print(f'{pid} monitors observed: ' + json.dumps(jsonable(obs), sort_keys=True), file=out)
     for key, e in known_hits.items():
